@@ -250,10 +250,10 @@ func (wtr *XMLWtr) getStringValue(p *node.Path, v val.Value) (string, error) {
 	case val.FmtIdentityRef:
 		stringValue = v.String()
 		leafMod := meta.NamespaceModule(p.Meta)
-		bases := p.Meta.(meta.HasType).Type().Base()
+		bases := p.Meta.(meta.HasType).Type().IdentityBases()
 		idty := meta.FindIdentity(bases, stringValue)
 		if idty == nil {
-			err = fmt.Errorf("could not find ident '%s'", stringValue)
+			return "", fmt.Errorf("could not find ident '%s'", stringValue)
 		}
 		idtyMod := meta.RootModule(idty)
 		if idtyMod != leafMod {
